@@ -124,6 +124,8 @@ func alCmdVal(c alCmd) M {
 	return M{"cid": c.cid, "haspl": !nilIface(c.p), "val": emptyAsList(alToVal(c.p))}
 }
 
+var lastALCmds = map[string][]alCmd{}
+
 func alStreamEvent(pk *alPkg, up bool, items []M) M {
 	dir := "down"
 	if up {
@@ -156,11 +158,20 @@ func alStreamEvent(pk *alPkg, up bool, items []M) M {
 	if curCtx != nil && curCtx.rnd.Intn(3) == 0 { // the same commands and another package's output are encoded again before b is read
 		observeFast(func() error {
 			pk.marshal(cmds[:len(cmds)/2])
+			if prev, ok := lastALCmds[pk.name]; ok { // ... and a DIFFERENT sequence of the same package (the previous case's)
+				pk.marshal(prev)
+			}
+			rev := make([]alCmd, len(cmds))
+			for i := range cmds {
+				rev[len(cmds)-1-i] = cmds[i]
+			}
+			pk.marshal(rev)
 			disturb()
 			return nil
 		})
 	}
 	ev["bytes"] = bs(b)
+	lastALCmds[pk.name] = cmds
 	var back []alCmd
 	in := append([]byte{}, b...)
 	dres, _ := observeFast(func() error {
